@@ -24,12 +24,12 @@ def _judge(a, out):
         res, flag, opened = o.split(":")
         if act == "cok" and res == "ok":
             connected = True
-        if act in ("disc", "with", "withx"):
+        if act == "disc" or act.startswith("with"):
             connected = False
         ok = (flag == ("1" if connected else "0")) and (opened == ("1" if connected else "0"))
         if act == "cref" and res != "raise_OSError":
             ok = False
-        if act == "withx" and res != "raise_BodyError":
+        if act.startswith("withx") and res != "raise_BodyError":
             ok = False
         if act in ("disc", "with", "cok") and res != "ok":
             ok = False
@@ -44,6 +44,11 @@ LIFE = C.Kind("client-life", impl=_impl, model=lambda a: "clife " + " ".join(a["
 KINDS = {"client-life": LIFE}
 
 
+def _body(rng):
+    """the body of `async with` raises: an exception of the harness, or one of the classes a failing socket operation raises"""
+    return "withx" if rng.random() < 0.4 else "withx:" + rng.choice(sorted(set(L.BODY_EXCEPTIONS) - {"BodyError"}))
+
+
 def gen(rng):
     acts, connected = [], False
     for _ in range(rng.choice([3, 6, 10, rng.randrange(1, 21)])):
@@ -51,6 +56,7 @@ def gen(rng):
             a = rng.choice(["op", "opx", "disc", "disc", "op"])
         else:
             a = rng.choice(["cok", "cok", "cref", "disc", "with", "withx"])
+            a = _body(rng) if a == "withx" else a
         if a == "cok":
             connected = True
         if a == "disc":
@@ -66,9 +72,10 @@ def gen_any(rng):
     acts, connected = [], False
     for _ in range(rng.randrange(2, 16)):
         a = rng.choice(["cok", "cok", "cref", "disc", "with", "withx"] + (["op", "opx"] if connected else []))
+        a = _body(rng) if a == "withx" else a
         if a == "cok":
             connected = True
-        if a in ("disc", "with", "withx"):
+        if a == "disc" or a.startswith("with"):
             connected = False
         acts.append(a)
     return {"api": rng.choice(["type1", "type2"]), "acts": acts}
@@ -77,11 +84,11 @@ def gen_any(rng):
 def _double(acts):
     c = False
     for a in acts:
-        if a in ("cok", "with", "withx") and c:
+        if (a == "cok" or a.startswith("with")) and c:
             return True
         if a == "cok":
             c = True
-        if a in ("disc", "with", "withx"):
+        if a == "disc" or a.startswith("with"):
             c = False
     return False
 
@@ -94,7 +101,8 @@ KINDS["client-life-unrestricted"] = ANY
 
 FIXED = [{"api": t, "acts": acts} for t in ("type1", "type2") for acts in (
     ["disc", "disc", "cref", "cok", "op", "opx", "op", "disc", "disc", "cok", "disc"],
-    ["withx", "with", "cok", "disc", "withx", "cref", "cok", "opx", "disc"],
+    ["withx", "with", "cok", "disc", "withx:TimeoutError", "cref", "cok", "opx", "disc", "withx:ConnectionResetError", "withx:CancelledError",
+     "withx:KeyError", "cok", "disc"],
     ["cok", "disc", "cok", "disc", "cok", "op", "disc"])]
 
 
